@@ -51,6 +51,9 @@ structure World where
   sdAlive : Bool          -- llc.sap[1] is not None (then its snl is not None)
   resolved : Bool         -- the name asked for is in the snl of the service discovery SAP
   viaSap : Bool           -- local variable of the calling thread: close() goes through the service access point
+  /-- which tree is modelled: DataLinkConnection.close() discards unread data before it waits for the DM
+      (fixes/C05/0002); false = the code before that repair.  Every theorem holds for both values. -/
+  closeClearsRecv : Bool := true
   deriving DecidableEq, Repr
 
 inductive Ev | recv | send | acks | bogus deriving DecidableEq, Repr
@@ -219,8 +222,10 @@ def closeGot (w : World) (_k : PduK) (r : List PduK) : Step := closeFinish (with
 
 def bodyClose (w : World) : Step :=
   if w.s.kind = .dlc ∧ w.s.isEst ∧ w.s.bound then
-    -- unsent PDUs are discarded, then the DISC is queued (tco.py: send_queue.clear() before the append)
-    takeRecv (withS w { w.s with st := .disconnect, sendQ := [.disc] }) closeGot
+    -- unsent PDUs are discarded, then the DISC is queued (tco.py: send_queue.clear() before the append);
+    -- as repaired by fixes/C05/0002 unread data is discarded too, so that close() always waits for the DM
+    takeRecv (withS w { w.s with st := .disconnect, sendQ := [.disc],
+                                 recvQ := if w.closeClearsRecv then [] else w.s.recvQ }) closeGot
   else closeFinish w
 
 def pollRecvNow (w : World) : Step :=
